@@ -8,6 +8,8 @@ import (
 	"encoding/binary"
 	"errors"
 	"fmt"
+	"sort"
+	"strings"
 )
 
 // Frame message types.
@@ -137,7 +139,10 @@ func (m *Msg) String() string {
 	case TGlobalRollback:
 		return fmt.Sprintf("GlobalRollback{xid=%q}", m.Xid)
 	case TBranchRegister:
-		return fmt.Sprintf("BranchRegister{xid=%q type=%d res=%q lock=%q app=%q}", m.Xid, m.BranchType, m.ResourceID, m.LockKey, m.AppData)
+		// the client builds the lock key text from a Go map: canonical order in the log
+		lk := strings.Split(strings.TrimSuffix(m.LockKey, ";"), ";")
+		sort.Strings(lk)
+		return fmt.Sprintf("BranchRegister{xid=%q type=%d res=%q lock=%q app=%q}", m.Xid, m.BranchType, m.ResourceID, strings.Join(lk, ";"), m.AppData)
 	case TBranchReport:
 		return fmt.Sprintf("BranchReport{xid=%q branch=%d status=%d res=%q type=%d}", m.Xid, m.BranchID, m.Status, m.ResourceID, m.BranchType)
 	case TGlobalLockQuery:
